@@ -3,8 +3,8 @@ sys.path.insert(0, os.path.join(VERIF, 'harness'))
 from typed_common import *
 HARNESSES = []
 TY = ['T_Int8', 'T_IntR', 'T_Int16', 'T_Int17', 'T_IntOne', 'T_IntSemi', 'T_IntNeg', 'T_IntU32', 'T_Seq', 'T_SeqOf', 'T_SetOf', 'T_Cho', 'T_Oct', 'T_OctF',
-      'T_IA5', 'T_Set', 'E_Uni', 'E_Int', 'E_Ser', 'E_Exc', 'E_Gap', 'E_Vals', 'E_Ref', 'E_MinU', 'E_SemiSer', 'E_P257', 'E_Neg']
-Q = ['T_Int8', 'T_IntR', 'T_Seq', 'T_Set', 'T_SeqOf', 'T_Oct', 'T_IA5', 'T_Set', 'E_Uni', 'E_Exc', 'E_Vals', 'E_Gap', 'T_Cho', 'T_IntU32']
+      'T_IA5', 'T_Vis', 'T_Set', 'E_Uni', 'E_Int', 'E_Ser', 'E_Exc', 'E_Gap', 'E_Vals', 'E_Ref', 'E_MinU', 'E_SemiSer', 'E_P257', 'E_Neg']
+Q = ['T_Int8', 'T_IntR', 'T_Seq', 'T_Set', 'T_SeqOf', 'T_Oct', 'T_IA5', 'T_Vis', 'T_Set', 'E_Uni', 'E_Exc', 'E_Vals', 'E_Gap', 'T_Cho', 'T_IntU32']
 for t in TY:
     HARNESSES.append(typed(H, 'ck_%s' % t, 'typed/constraints.c', t, 'der', models=['printf_nondet'], tiers=('quick', 'thorough') if t in Q else ('thorough',),
                            exclude=r'xer|_print|random_fill|_oer|_uper|_aper|_ber|_der',
